@@ -1,6 +1,7 @@
 package main
 
 import (
+	"go/constant"
 	"fmt"
 	"go/ast"
 	"go/token"
@@ -72,6 +73,8 @@ type Frame struct {
 	defers     []deferred
 	newReach   *Term
 	recovered  *Term // value recover() yields inside this activation (deferred call during panicking)
+	callPos    token.Pos // position of the call this activation was inlined at
+	loopOwner  *Frame    // the frame whose contract annotates this frame's loops (itself, or an ancestor for a contract-less helper)
 }
 
 type deferred struct {
@@ -255,15 +258,165 @@ func maxSymNum(s string) int {
 }
 
 func (ex *Exec) newFrame(fn *ssa.Function, parent *Frame, prefix string) *Frame {
+	return ex.newFrameAt(fn, parent, prefix, token.NoPos)
+}
+
+func (ex *Exec) newFrameAt(fn *ssa.Function, parent *Frame, prefix string, callPos token.Pos) *Frame {
 	fr := &Frame{fn: fn, regs: map[ssa.Value]Val{}, parent: parent, prefix: prefix, params: map[string]Val{},
-		edges: map[[2]int]edgeInfo{}, blockReach: map[int]Term{}, loopHdrSt: map[*ssa.BasicBlock]*loopRun{}}
+		edges: map[[2]int]edgeInfo{}, blockReach: map[int]Term{}, loopHdrSt: map[*ssa.BasicBlock]*loopRun{}, callPos: callPos}
 	if parent != nil {
 		fr.depth = parent.depth + 1
 	}
 	fr.contract = ex.prog.Contracts.Funcs[fn.String()]
 	fr.loops, _ = computeLoops(fn)
 	fr.order = topoOrder(fn)
+	ex.assignLoopOrds(fr)
 	return fr
+}
+
+// ---- loop ordinals across helper functions without a contract ----
+//
+// A contract numbers the loops of its function in source order. A repository function without a contract is inlined
+// at its call sites; its loops take part in the numbering of the nearest enclosing function under contract as if they
+// stood at the call site (so that moving a loop into a new helper function does not detach its annotations).
+
+// expandedLoopKeys lists, in order, a key for every loop of fn and of the contract-less repository functions it calls:
+// "#k" for fn's own k-th loop, "<callpos>/..." for a loop reached through the call at that position.
+func (p *Program) expandedLoopKeys(fn *ssa.Function, depth int, onPath map[*ssa.Function]bool) []string {
+	type item struct {
+		pos  token.Pos
+		keys []string
+	}
+	var items []item
+	loops, hdrs := computeLoops(fn)
+	firstPos := func(li *loopInfo) token.Pos {
+		best := token.Pos(0)
+		for _, b := range fn.Blocks {
+			if !li.body[b.Index] {
+				continue
+			}
+			for _, in := range b.Instrs {
+				if q := in.Pos(); q.IsValid() && (best == 0 || q < best) {
+					best = q
+				}
+			}
+		}
+		return best
+	}
+	for i, h := range hdrs {
+		items = append(items, item{firstPos(loops[h]), []string{fmt.Sprintf("#%d", i+1)}})
+	}
+	if depth < 4 {
+		live := liveBlocks(fn)
+		for _, b := range fn.Blocks {
+			if !live[b.Index] {
+				continue
+			}
+			for _, in := range b.Instrs {
+				ci, ok := in.(ssa.CallInstruction)
+				if !ok {
+					continue
+				}
+				if _, isDefer := in.(*ssa.Defer); isDefer {
+					continue
+				}
+				if _, isGo := in.(*ssa.Go); isGo {
+					continue
+				}
+				callee := ci.Common().StaticCallee()
+				if callee == nil || callee.Parent() != nil || len(callee.Blocks) == 0 || !p.InRepo(callee) || onPath[callee] || callee == fn {
+					continue
+				}
+				if p.Contracts.Funcs[callee.String()] != nil {
+					continue
+				}
+				onPath[callee] = true
+				sub := p.expandedLoopKeys(callee, depth+1, onPath)
+				delete(onPath, callee)
+				if len(sub) == 0 {
+					continue
+				}
+				var keys []string
+				for _, k := range sub {
+					keys = append(keys, fmt.Sprintf("%d/%s", in.Pos(), k))
+				}
+				items = append(items, item{in.Pos(), keys})
+			}
+		}
+	}
+	sort.SliceStable(items, func(i, j int) bool { return items[i].pos < items[j].pos })
+	var out []string
+	for _, it := range items {
+		out = append(out, it.keys...)
+	}
+	return out
+}
+
+// liveBlocks: the blocks reachable from the entry without taking a branch whose condition is the constant false/true
+// the other way (code under "if debug" with a constant debug flag is never executed, symbolically either).
+func liveBlocks(fn *ssa.Function) map[int]bool {
+	live := map[int]bool{}
+	if len(fn.Blocks) == 0 {
+		return live
+	}
+	stack := []*ssa.BasicBlock{fn.Blocks[0]}
+	if fn.Recover != nil {
+		stack = append(stack, fn.Recover)
+	}
+	for len(stack) > 0 {
+		b := stack[len(stack)-1]
+		stack = stack[:len(stack)-1]
+		if live[b.Index] {
+			continue
+		}
+		live[b.Index] = true
+		succs := b.Succs
+		if len(b.Instrs) > 0 {
+			if iff, ok := b.Instrs[len(b.Instrs)-1].(*ssa.If); ok && len(succs) == 2 {
+				if k, ok := iff.Cond.(*ssa.Const); ok && k.Value != nil && k.Value.Kind() == constant.Bool {
+					if constant.BoolVal(k.Value) {
+						succs = succs[:1]
+					} else {
+						succs = succs[1:]
+					}
+				}
+			}
+		}
+		stack = append(stack, succs...)
+	}
+	return live
+}
+
+// assignLoopOrds sets the ordinal of every loop of the frame's function as the contract of the nearest enclosing
+// function under contract counts it.
+func (ex *Exec) assignLoopOrds(fr *Frame) {
+	if len(fr.loops) == 0 {
+		return
+	}
+	owner, path := fr, ""
+	if fr.contract == nil {
+		for owner.contract == nil && owner.parent != nil {
+			path = fmt.Sprintf("%d/", owner.callPos) + path
+			owner = owner.parent
+		}
+	}
+	if owner == fr && fr.contract == nil {
+		return
+	}
+	keys := ex.prog.expandedLoopKeys(owner.fn, 0, map[*ssa.Function]bool{owner.fn: true})
+	index := map[string]int{}
+	for i, k := range keys {
+		index[k] = i + 1
+	}
+	for _, li := range fr.loops {
+		if n, ok := index[fmt.Sprintf("%s#%d", path, li.ord)]; ok {
+			if n != li.ord && fr.contract != nil {
+				ex.vc.Assumptions[fmt.Sprintf("loop %d of %s is counted as loop %d (loops of inlined helper functions without a contract are numbered at their call sites)", li.ord, fr.fn.Name(), n)] = true
+			}
+			li.ord = n
+		}
+	}
+	fr.loopOwner = owner
 }
 
 // runBody symbolically executes fn from state st under path condition reach.
@@ -453,6 +606,9 @@ func (ex *Exec) setEdge(fr *Frame, from, to *ssa.BasicBlock, cond Term, st *Stat
 // loopSpec returns the loop annotations for a loop of the frame's function.
 func (fr *Frame) loopSpec(li *loopInfo) *LoopSpec {
 	if fr.contract == nil {
+		if fr.loopOwner != nil && fr.loopOwner.contract != nil {
+			return fr.loopOwner.contract.Loops[li.ord]
+		}
 		return nil
 	}
 	return fr.contract.Loops[li.ord]
@@ -688,6 +844,19 @@ func (ex *Exec) invariantDynTypes(fr *Frame, ls *LoopSpec) map[string]types.Type
 	for _, inv := range ls.Invariants {
 		if inv.E != nil {
 			walk(inv.E)
+		}
+	}
+	// a name the function no longer has: the recorded position may tell which variable is meant
+	for k, t := range out {
+		name, opt := k, ""
+		if strings.HasPrefix(k, "?") {
+			name, opt = k[1:], "?"
+		}
+		if ex.findLocalAt(fr, nil, token.NoPos, name) == nil {
+			continue
+		}
+		if a := ex.findLocalAt(fr, nil, token.NoPos, name); a != nil && a.Comment != name {
+			out[opt+a.Comment] = t
 		}
 	}
 	return out
